@@ -387,6 +387,15 @@ def rule_OR2_responder(ctx, tier):
             rr.ok("check_confirmations(height of this block)")
         else:
             rr.fail("fbc:check-height", "check_confirmations is not given this block's height", where=f.line_of(bb))
+    # both re-submission passes pick their trackers by the status stored in the database / the reorged set, which
+    # check_confirmations brings up to this block first (a penalty mined in this block is ConfirmedIn, not stale;
+    # a tracker confirmed again leaves the reorged set)
+    for name in ("rebroadcast_stale_txs", "handle_reorged_txs"):
+        for bb in sites(f, RSP + name):
+            if RSP + "check_confirmations" in before.get(bb, set()):
+                rr.ok("check_confirmations before %s" % name)
+            else:
+                rr.fail("fbc:%s-before-confirmations" % name, "%s runs on a path that has not yet recorded this block's confirmations: a penalty mined in this very block is still `InMempoolSince` in the database and is re-submitted to a node that has it in the chain (rejected, or `IrrevocablyResolved` reaching the status update)" % name, where=f.line_of(bb))
     hr = sites(f, RSP + "handle_reorged_txs")
     if not hr:
         rr.fail("fbc:no-reorg-handler", "Responder::filtered_block_connected never calls handle_reorged_txs", where=f.span)
